@@ -22,7 +22,10 @@ def receive(connection: IPCBase) -> Any:
     Raise OSError if the data received is not valid JSON or if it is
     not a dict.
     """
-    bdata = connection.read()
+    try:
+        bdata = connection.read()
+    except UnicodeDecodeError as e:
+        raise OSError("Data received is not valid UTF-8") from e
     if not bdata:
         raise OSError("No data received")
     try:
